@@ -12,6 +12,7 @@ indent say so in an explicit hypothesis.  `iterLines width indent s` is the list
 by `iter_lines` (before `rstrip`), `wrap width indent s` the returned string.
 -/
 import PybtexModel.Lemmas.Wrap
+import PybtexModel.Model.Interp
 
 namespace Pybtex.Props
 open Pybtex Pybtex.Wrap
@@ -401,5 +402,134 @@ theorem C19_terminates (width : Int) (indent s : Str) :
     have := findBreak_bounds hb
     simp only [List.length_append, List.length_drop, List.length_cons] at ih ⊢
     omega
+
+
+/-! ### the blank continuation line (recorded finding `C19-blank-continuation-line`)
+
+"Continuation lines are indented by two spaces" and "trailing white space is removed" cannot both
+hold for a continuation line whose text is white space only; `wrap` emits such a line EMPTY
+(BibTeX drops it).  The clause is therefore proved in the restricted form `_partial` (every
+continuation line that holds a non-white-space character keeps the indent; the others come out
+empty) and refuted in its unrestricted form on concrete witnesses (`_neg`): one at width 3 and one
+with the default arguments (a 79-column word followed by two blanks gives a second, empty line). -/
+
+theorem C19_indent_emitted_partial (width : Int) (indent s : Str)
+    (hind : ∀ c ∈ indent, isWs c = true) :
+    ∀ l ∈ (iterLines width indent s).tail,
+      ((∃ c ∈ l, isWs c = false) → indent <+: rstrip l ∧ rstrip l ≠ []) ∧
+      ((∀ c ∈ l, isWs c = true) → rstrip l = []) := by
+  intro l hl
+  have hp := (C19_indent width indent s).1 l hl
+  refine ⟨fun hne => ⟨rstrip_keeps_indent hind hp hne, ?_⟩, (rstrip_eq_nil_iff l).2⟩
+  intro h
+  obtain ⟨c, hc, hcw⟩ := hne
+  rw [(rstrip_eq_nil_iff l).1 h c hc] at hcw
+  cases hcw
+
+theorem C19_indent_emitted_partial_nonvacuous :
+    (iterLines 9 "  ".toList "01234 6789\t12345".toList).tail = ["  6789".toList, "  12345".toList] ∧
+    rstrip "  6789".toList = "  6789".toList := by
+  decide +kernel
+
+/-- The unrestricted clause "every emitted continuation line starts with the indent" is false of
+the code: `wrap('aaaa   bbbb', 3)` = `'aaaa\n\n  bbbb'`, and with the default arguments a text of
+79 non-blank characters followed by two blanks comes back with a second, empty line. -/
+theorem C19_indent_emitted_neg :
+    (¬ ∀ (width : Int) (indent s : Str), (∀ c ∈ indent, isWs c = true) →
+        ∀ e ∈ ((iterLines width indent s).map rstrip).tail, indent <+: e) ∧
+    wrap 3 "  ".toList "aaaa   bbbb".toList = "aaaa\n\n  bbbb".toList ∧
+    wrapDefault (List.replicate 79 'x' ++ "  ".toList) = List.replicate 79 'x' ++ ['\n'] := by
+  refine ⟨?_, by decide +kernel, by decide +kernel⟩
+  intro h
+  have h1 := h 3 "  ".toList "aaaa   bbbb".toList (by decide) []
+  have h2 : ((iterLines 3 "  ".toList "aaaa   bbbb".toList).map rstrip).tail = [[], "  bbbb".toList] := by
+    decide +kernel
+  rw [h2] at h1
+  have h3 := h1 (by simp)
+  have := h3.length_le
+  simp at this
+
+/-! ### BibTeX-engine output: width 79, indent two blanks, `newline$` -/
+
+/-- The statement of C19 for the call the engine makes, `wrap(text)` = `wrap(text, 79, '  ')`:
+with `L` the lines of `iter_lines` and `E` the emitted (right-stripped) lines,
+the returned string is the `"\n"`-join of `E`; the text is `L` glued back together with one
+white-space character per break and the two indent characters of every continuation line removed;
+the non-white-space characters and the words of the output are those of the text; an emitted
+continuation line starts with two blanks or is empty (`C19_indent_emitted_partial`: empty only
+when its text was white space only); a line longer than 79 columns has no white space behind
+column 2; no emitted line ends in white space. -/
+theorem C19_default_lines (T : Str) :
+    wrapDefault T = joinWith ['\n'] ((iterLines 79 [' ', ' '] T).map rstrip) ∧
+    (∃ seps : List Char, seps.length = (iterLines 79 [' ', ' '] T).length - 1 ∧
+      (∀ c ∈ seps, isWs c = true) ∧ T = unjoin 2 (iterLines 79 [' ', ' '] T) seps) ∧
+    nonWs (wrapDefault T) = nonWs T ∧ words (wrapDefault T) = words T ∧
+    (∀ e ∈ ((iterLines 79 [' ', ' '] T).map rstrip).tail, [' ', ' '] <+: e ∨ e = []) ∧
+    (∀ e ∈ (iterLines 79 [' ', ' '] T).map rstrip, e.length > 79 → ∀ q, 2 < q → ¬ WsAt e q) ∧
+    (∀ e ∈ (iterLines 79 [' ', ' '] T).map rstrip, NoTrailingWs e) := by
+  have hind : ∀ c ∈ [' ', ' '], isWs c = true := by decide
+  refine ⟨rfl, C19_content_exact 79 [' ', ' '] T (by simp), C19_content_output 79 _ T hind,
+    (C19_words 79 _ T hind).2, (C19_indent 79 _ T).2.2 hind, ?_, ?_⟩
+  · intro e he hlen q hq hws
+    obtain ⟨l, hl, rfl⟩ := List.mem_map.1 he
+    have hp := rstrip_prefix l
+    have hle : (rstrip l).length ≤ l.length := hp.length_le
+    exact C19_width_no_break_point 79 [' ', ' '] T l hl (by omega) q hq (WsAt_prefix hp hws)
+  · intro e he
+    obtain ⟨l, _, rfl⟩ := List.mem_map.1 he
+    exact (rstrip_spec l).2
+
+theorem C19_default_lines_nonvacuous :
+    (iterLines 79 [' ', ' '] (List.replicate 78 'a' ++ ' ' :: List.replicate 3 'b' ++ '\t' :: List.replicate 90 'c')).map rstrip
+      = [List.replicate 78 'a', "  bbb".toList, ' ' :: ' ' :: List.replicate 90 'c'] := by
+  decide +kernel
+
+/-- The physical lines of BibTeX-engine output.  The interpreter model executes `write$` as
+`Interpreter.output` (append the piece to the buffer) and `newline$` as `Interpreter.newline`:
+the wrapped concatenation of the buffered pieces and a line feed are appended to the output
+lines and the buffer is EMPTIED — so every `newline$` emits `wrap(text, 79, '  ')` of exactly
+what was written since the previous one, for which `C19_default_lines` holds. -/
+theorem C19_engine_newline (f : Nat) (s : Interp.St) :
+    Interp.runBuiltin (f + 1) .newline s =
+      .ok { s with lines := (newlineStep s.lines s.buffer).1, buffer := (newlineStep s.lines s.buffer).2,
+                   trace := s.trace ++ [.newline] } ∧
+    (newlineStep s.lines s.buffer).1 = s.lines ++ [wrapDefault s.buffer.flatten, ['\n']] ∧
+    (newlineStep s.lines s.buffer).2 = [] ∧
+    (∀ (x : Str) (r : List Interp.Val),
+      Interp.runBuiltin (f + 1) .write { s with stack := .str x :: r } =
+        .ok { s with stack := r, buffer := outputStep s.buffer x, trace := s.trace ++ [.write x] }) :=
+  ⟨rfl, rfl, rfl, fun _ _ => rfl⟩
+
+/-- A program that writes the pieces of `ls[0]`, calls `newline$`, writes the pieces of `ls[1]`,
+calls `newline$`, …: its output is, line group by line group, the wrapped concatenation of the
+pieces followed by a line feed (nothing of one group leaks into the next: the buffer is cleared);
+the concatenation of all writes is preserved up to white space, and no word is split or merged —
+neither inside a group nor across a `newline$`. -/
+theorem C19_engine_output (ls : List (List Str)) :
+    engineOutput ls =
+      (ls.map fun pieces =>
+        joinWith ['\n'] ((iterLines 79 [' ', ' '] pieces.flatten).map rstrip) ++ ['\n']).flatten ∧
+    nonWs (engineOutput ls) = nonWs ls.flatten.flatten ∧
+    words (engineOutput ls) = (ls.map fun pieces => words pieces.flatten).flatten := by
+  refine ⟨engineOutput_eq ls, ?_, ?_⟩
+  · induction ls with
+    | nil => rfl
+    | cons p ps ih =>
+      have hnl : nonWs ['\n'] = [] := by decide
+      rw [engineOutput_cons, show (wrapDefault p.flatten ++ '\n' :: engineOutput ps)
+        = wrapDefault p.flatten ++ (['\n'] ++ engineOutput ps) from rfl, nonWs_append, nonWs_append, hnl,
+        ih, (C19_default_lines p.flatten).2.2.1]
+      simp [nonWs_append]
+  · induction ls with
+    | nil => rfl
+    | cons p ps ih =>
+      have hnl : isWs '\n' = true := by decide
+      rw [engineOutput_cons, words_ws _ _ hnl, ih, (C19_default_lines p.flatten).2.2.2.1]
+      simp
+
+/-- two `newline$` groups with several pieces each, then an empty one -/
+theorem C19_engine_output_nonvacuous :
+    engineOutput [["ab".toList, " c".toList], [], ["d ".toList, [], "e".toList]] = "ab c\n\nd e\n".toList := by
+  decide +kernel
 
 end Pybtex.Props
